@@ -55,7 +55,7 @@ int main(void) {
       if (any) VF_REACH("remove of an active tag");
     } else {
       int b0 = target == 1 ? 1 : 0;
-      int ok = target != 2 && target != 4;
+      int ok = target != 2 && target != 4 && target != 5 && target != 6;   /* 5, 6: refused by the engine itself (unit compiled against a stale root) */
       int f0 = (int)vf_cfg[CFG_BASEFLAGS][b0], f1 = (int)vf_cfg[CFG_BASEFLAGS][1];
       if ((content & 1) && !((f0 >> 1) & 1)) ok = 0;
       if ((content & 2) && !((f0 >> 2) & 1)) ok = 0;
